@@ -14,21 +14,35 @@ ASSUMPTIONS = [
     "children are token nodes providing IFileNode / IDirectoryNode / IFilesystemNode only; MutableFileNode.modify modelled by its "
     "contract (exception or None => contents unchanged), with an optional injected UncoordinatedWriteError",
 ]
-T = {"quick": 120, "thorough": 900}
-ALLRAW = list(range(7))
+T = {"quick": 150, "thorough": 1200}
+R7 = list(range(7))
+F, TR = [False], [True]
+
+
+def _c(label, **kw):
+    kw["_label"] = label
+    return kw
+
+
 OBLIGATIONS = [
     chx("update_metadata", "C20_h", "h_update_metadata", timeout=T,
         desc="dirnode.update_metadata: linkmotime=now; linkcrtime kept, else old ctime, else now; caller's 'tahoe' ignored, other old "
              "tahoe keys kept; metadata replaces user keys, None keeps them; result == metadata model; caller's dict not modified"),
     chx("adder", "C20_h", "h_adder", timeout=T,
-        cases={"quick": [{"raw": [0, 4], "_label": "fresh_or_bystander"}, {"raw": [1], "_label": "same"}, {"raw": [2, 3], "_label": "nfc_equiv"}],
-               "thorough": [{"raw": [i], "_label": "raw%d" % i} for i in ALLRAW]},
+        cases={"quick": [_c("overwrite", ow=[0, 1, 2], raw=[1, 2], a=[0, 1, 2, 3], shape=[0], n=[0, 1], nm=[0, 1]),
+                         _c("metadata", ow=[0], raw=[3], a=[0, 1, 4], n=[0]),
+                         _c("diminish", ow=[0], raw=[0, 1], a=[0, 1], shape=[0], nm=[0, 3, 4, 5]),
+                         _c("names", raw=R7, a=[0, 2], shape=[0], n=[0], nm=[0])],
+               "thorough": [_c("raw%d_ow%d" % (r, o), raw=[r], ow=[o]) for r in R7 for o in range(3)]},
         desc="Adder.modify (entries= and set_node): symbolic overwrite mode, name (incl. NFC-equivalent spellings), presence/kind/read-only-ness "
              "of the existing child, shape of old and new metadata, no-write: result == map-model add, or ExistingChildError exactly when "
-             "overwrite=False and present / ONLY_FILES and a directory is present, with the contents unchanged"),
+             "overwrite=False and present / ONLY_FILES and a directory is present, with the contents unchanged. Selector lists of each case are in its bounds "
+             "(absent key = full range: ow 0..2, raw 0..6, a 0..4, shape 0..3, n 0..4, nm 0..5)"),
     chx("adder_two", "C20_h", "h_adder_two", timeout=T,
-        cases={"quick": [{"raw": [0, 1, 2], "_label": "k_A_A"}, {"raw": [2, 3, 4], "_label": "A_A_z"}],
-               "thorough": [{"raw": [0, 1, 2, 3], "_label": "a"}, {"raw": [1, 2, 3, 4], "_label": "b"}, {"raw": [3, 4, 5, 6], "_label": "c"}]},
+        cases={"quick": [_c("collide", raw=[0, 1, 2], a=[0, 2], k=[0]),
+                         _c("only_files", raw=[1, 2], ow=[2], a=[0, 1, 2], k=[0, 1]),
+                         _c("bystander", raw=[3, 4], a=[0, 1], k=[0, 1], ow=[0, 1])],
+               "thorough": [_c("r012", raw=[0, 1, 2]), _c("r1234", raw=[1, 2, 3, 4]), _c("r3456", raw=[3, 4, 5, 6])]},
         desc="Adder.modify with two entries whose names may collide after normalisation: equals two sequential map-model adds; a refused "
              "second add leaves the contents unchanged"),
     chx("deleter", "C20_h", "h_deleter", timeout=T,
@@ -36,17 +50,41 @@ OBLIGATIONS = [
              "must_be_directory and a file / must_be_file and a directory (unknown children always removable); else exactly that name removed, "
              "old_child is the removed child"),
     chx("mdsetter", "C20_h", "h_mdsetter", timeout=T,
+        cases={"quick": [_c("names", raw=R7, a=[0, 1], shape=[0], nm=[1]),
+                         _c("metadata", raw=[2], a=[1, 2, 3, 4])],
+               "thorough": [_c("raw%d" % r, raw=[r]) for r in R7]},
         desc="MetadataSetter.modify: NoSuchChildError iff missing; else only that entry's metadata changes, per the metadata model; child kept "
              "(diminished to read-only iff resulting no-write is true and a create_readonly_node is given)"),
     chx("move", "C20_h", "h_move", timeout=T,
+        cases={"quick": [_c("readonly", ow=[0], src_raw=[1], dst_raw=[0], sa=[1], ta=[0], fail_add=F),
+                         _c("cross_overwrite", where=[0], src_raw=[2], dst_raw=[1, 3], sa=[1, 2], fail_add=F, src_rdonly=F, dst_rdonly=F),
+                         _c("cross_fail", where=[0], ow=[0, 1], src_raw=[1, 2], dst_raw=[0, 3], sa=[0, 1], ta=[0, 1], src_rdonly=F, dst_rdonly=F),
+                         _c("same_dir", where=[1, 2], src_rdonly=F, dst_rdonly=F, fail_add=F, ta=[0])],
+               "thorough": [_c("readonly", ow=[0], sa=[0, 1], ta=[0, 1], fail_add=F),
+                            _c("cross_ow0", where=[0], ow=[0], src_rdonly=F, dst_rdonly=F),
+                            _c("cross_ow1", where=[0], ow=[1], src_rdonly=F, dst_rdonly=F),
+                            _c("cross_ow2", where=[0], ow=[2], src_rdonly=F, dst_rdonly=F),
+                            _c("same_dir", where=[1, 2], src_rdonly=F, dst_rdonly=F, fail_add=F, ta=[0])]},
         desc="DirectoryNode.move_child_to with real set_node/delete/get_child_and_metadata on two fake-backed directories (or the same directory, "
              "also through a second node object): read-only => NotWriteableError; rename to the same normalised name in the same directory is a "
              "no-op; missing source => NoSuchChildError; refused or failed add (overwrite mode, injected UncoordinatedWriteError) => both "
              "directories unchanged (child stays under the old name); else target gains the child per the map-model add and the source loses exactly that name"),
     chx("dir_ops", "C20_h", "h_dir_ops", timeout=T,
-        cases={"quick": [{"raw": [0, 1], "_label": "k_A"}, {"raw": [2, 4], "_label": "A2_z"}],
-               "thorough": [{"raw": [i], "_label": "raw%d" % i} for i in ALLRAW]},
+        cases={"quick": [_c("add", op=[0, 1], raw=[0, 2], a=[0, 1, 2], shape=[0], n=[0], nm=[0, 4]),
+                         _c("delete", op=[2], raw=[0, 2, 4]),
+                         _c("setmd", op=[3], raw=[0, 3], a=[0, 1, 3, 4], shape=[0, 1], nm=[1, 4, 5])],
+               "thorough": [_c("add_raw%d" % r, op=[0, 1], raw=[r], shape=[0, 1]) for r in (0, 1, 2, 3, 4, 6)] +
+                           [_c("delete", op=[2]), _c("setmd", op=[3])]},
         desc="DirectoryNode.set_node / set_nodes / delete / set_metadata_for (real, incl. _create_readonly_node) on a fake backing file: result "
              "and final contents == map model; documented exception and contents unchanged otherwise; read-only directory => NotWriteableError "
              "without touching the backing file; has_child agrees"),
+    chx("history2", "C20_h", "h_history2", timeout=T,
+        cases={"quick": [_c("add_add", op1=[0], op2=[0], sa=[0, 2], pa=[0], raws=[1, 2], nm=[False]),
+                         _c("add_setmd_delete", op1=[0], op2=[1, 2], sa=[0, 1], pa=[0], ow=[0, 2], nm=[False, True]),
+                         _c("move_then", op1=[3], op2=[0, 3], sa=[1], pa=[0, 2], ow=[0, 1], raws=[1, 2], dsts=[2, 4], nm=[False]),
+                         _c("rename_then", op1=[4], op2=[2, 4], sa=[1, 2], pa=[0], ow=[0, 2], raws=[1, 2], dsts=[0, 2], nm=[False])],
+               "thorough": [_c("op%d_op%d" % (a, b), op1=[a], op2=[b], nm=[False, True] if a == 0 else [False]) for a in range(5) for b in range(5)]},
+        desc="every pair of operations from {set_node, delete, set_metadata_for, move to another directory, rename within the directory} on two fake-backed real "
+             "DirectoryNodes with symbolic names (same / NFC-equivalent / other), overwrite modes and symbolic timestamps now1, now2: outcome and both directories equal the "
+             "map model after each step (in particular: a link's linkcrtime survives the second operation while its linkmotime becomes now2; a failed step changes nothing)"),
 ]
